@@ -1,1 +1,240 @@
-pub fn run() { unimplemented!() }
+//! S4 (build-script world): input trees, build-script programs over the public API, prior
+//! OUT_DIR contents, crashes.  Child protocol as in statics_cases.rs (use through `capture`).
+//! A case is a sequence of ops separated by spaces:
+//!   W:<relpath>:<content>   write an input file (parents created)
+//!   M:<reldir>              create an input directory
+//!   X:<relpath>             remove an input file or directory tree
+//!   N:<from>:<to>           rename an input file or directory
+//!   O:<relpath>:<content>   write a file under OUT_DIR (pre-existing garbage / truncation)
+//!   Z                       set the sentinel mtime on every file under OUT_DIR
+//!   L                       report the input tree in read_dir order   -> ##R ls=..
+//!   R:<program>             run a build script in-process            -> ##R run=ok|E..|panic
+//!   C:<k>:<keep>:<program>  run it in a child process that aborts at the k-th physical write
+//!                           after writing `keep` bytes (-1: len-1, -2: half)  -> ##R crash=<exit>
+//!   P                       report OUT_DIR: every file with content and whether its mtime still
+//!                           is the sentinel                           -> ##R snap=..
+//! program: calls separated by ',':  c<dir>  compile_templates(dir);  s  statics();
+//!   f<path> add_file; g<dir> add_files; a<path>;<url> add_file_as; t<dir>;<to> add_files_as;
+//!   d<path>;<data> add_file_data; S<path> add_sass_file   (all arguments hex, relative to the
+//!   input root which is CARGO_MANIFEST_DIR)
+use crate::statics_cases::{keep, workdir};
+use crate::{hex, unhex};
+use ructe::Ructe;
+use std::io::BufRead;
+use std::path::{Path, PathBuf};
+use std::time::{Duration, SystemTime};
+
+fn s(h: &str) -> String {
+    String::from_utf8(unhex(h)).unwrap()
+}
+
+fn sentinel() -> SystemTime {
+    SystemTime::UNIX_EPOCH + Duration::from_secs(1_000_000_000)
+}
+
+fn walk(dir: &Path, rel: &str, f: &mut dyn FnMut(&Path, &str, bool)) {
+    let mut entries: Vec<_> = match std::fs::read_dir(dir) {
+        Ok(r) => r.filter_map(|e| e.ok()).collect(),
+        Err(_) => return,
+    };
+    entries.sort_by_key(|e| e.file_name());
+    for e in entries {
+        let name = e.file_name().to_string_lossy().to_string();
+        let r = if rel.is_empty() { name.clone() } else { format!("{rel}/{name}") };
+        let is_dir = e.file_type().map(|t| t.is_dir()).unwrap_or(false);
+        f(&e.path(), &r, is_dir);
+        if is_dir {
+            walk(&e.path(), &r, f);
+        }
+    }
+}
+
+/// the input tree in the order read_dir yields it in this process (that order is what the
+/// model is given)
+fn listing(dir: &Path, rel: &str, out: &mut Vec<String>) {
+    let entries: Vec<_> = match std::fs::read_dir(dir) {
+        Ok(r) => r.filter_map(|e| e.ok()).collect(),
+        Err(_) => return,
+    };
+    let mut here = Vec::new();
+    for e in &entries {
+        let is_dir = e.file_type().map(|t| t.is_dir()).unwrap_or(false);
+        here.push(format!("{}/{}", hex(e.file_name().to_string_lossy().as_bytes()), if is_dir { "d" } else { "f" }));
+    }
+    out.push(format!("{}:{}", hex(rel.as_bytes()), here.join(",")));
+    for e in &entries {
+        if e.file_type().map(|t| t.is_dir()).unwrap_or(false) {
+            let name = e.file_name().to_string_lossy().to_string();
+            let r = if rel.is_empty() { name } else { format!("{rel}/{name}") };
+            listing(&e.path(), &r, out);
+        }
+    }
+}
+
+pub fn run_program(base: &Path, out: &Path, program: &str) -> Result<(), String> {
+    std::env::set_var("CARGO_MANIFEST_DIR", base);
+    let mut r = Ructe::new(out.to_path_buf()).map_err(|e| format!("{e:?}"))?;
+    let calls: Vec<&str> = program.split(',').filter(|c| !c.is_empty()).collect();
+    let mut i = 0;
+    while i < calls.len() {
+        let c = calls[i];
+        match &c[..1] {
+            "c" => {
+                let d = s(&c[1..]);
+                r.compile_templates(base.join(d)).map_err(|e| format!("{e:?}"))?;
+                i += 1;
+            }
+            "s" => {
+                let mut st = r.statics().map_err(|e| format!("{e:?}"))?;
+                i += 1;
+                while i < calls.len() && !calls[i].starts_with('c') && calls[i] != "s" {
+                    let c = calls[i];
+                    let a: Vec<&str> = c[1..].split(';').collect();
+                    let res = match &c[..1] {
+                        "f" => st.add_file(s(a[0])).map(|_| ()),
+                        "g" => st.add_files(s(a[0])).map(|_| ()),
+                        "a" => st.add_file_as(s(a[0]), &s(a[1])).map(|_| ()),
+                        "t" => st.add_files_as(s(a[0]), &s(a[1])).map(|_| ()),
+                        "d" => st.add_file_data(s(a[0]), &unhex(a[1])).map(|_| ()),
+                        #[cfg(feature = "sass")]
+                        "S" => st.add_sass_file(s(a[0])).map(|_| ()),
+                        _ => return Err(format!("bad call {c}")),
+                    };
+                    res.map_err(|e| format!("{e:?}"))?;
+                    i += 1;
+                }
+            }
+            _ => return Err(format!("bad call {c}")),
+        }
+    }
+    Ok(())
+}
+
+/// `build-once <base> <out> <program> <k> <keep>`: one build with the crash point armed.
+pub fn run_once() {
+    let a: Vec<String> = std::env::args().collect();
+    let k: i64 = a[5].parse().unwrap();
+    let keepb: i64 = a[6].parse().unwrap();
+    ructe::verif_hooks::arm_crash(k, keepb);
+    let r = run_program(Path::new(&a[2]), Path::new(&a[3]), &a[4]);
+    println!("##R writes={}", ructe::verif_hooks::writes_done());
+    match r {
+        Ok(()) => println!("##R run=ok"),
+        Err(e) => println!("##R run={}", hex(format!("E{e}").as_bytes())),
+    }
+}
+
+pub fn run() {
+    let work = workdir();
+    let stdin = std::io::stdin();
+    let mut n = 0u64;
+    for line in stdin.lock().lines() {
+        let line = line.unwrap();
+        n += 1;
+        let base: PathBuf = work.join(format!("i{n}"));
+        let out: PathBuf = work.join(format!("o{n}"));
+        std::fs::create_dir_all(&base).unwrap();
+        std::fs::create_dir_all(&out).unwrap();
+        println!("##CASE");
+        println!("##R base={}", hex(base.to_str().unwrap().as_bytes()));
+        println!("##R outdir={}", hex(out.to_str().unwrap().as_bytes()));
+        for op in line.split(' ').filter(|x| !x.is_empty()) {
+            let f: Vec<&str> = op.splitn(4, ':').collect();
+            match f[0] {
+                "W" => {
+                    let p = base.join(s(f[1]));
+                    if let Some(d) = p.parent() {
+                        std::fs::create_dir_all(d).unwrap();
+                    }
+                    std::fs::write(&p, unhex(f[2])).unwrap();
+                }
+                "M" => std::fs::create_dir_all(base.join(s(f[1]))).unwrap(),
+                "X" => {
+                    let p = base.join(s(f[1]));
+                    if p.is_dir() {
+                        let _ = std::fs::remove_dir_all(&p);
+                    } else {
+                        let _ = std::fs::remove_file(&p);
+                    }
+                }
+                "N" => {
+                    let to = base.join(s(f[2]));
+                    if let Some(d) = to.parent() {
+                        std::fs::create_dir_all(d).unwrap();
+                    }
+                    let _ = std::fs::rename(base.join(s(f[1])), to);
+                }
+                "O" => {
+                    let p = out.join(s(f[1]));
+                    if let Some(d) = p.parent() {
+                        std::fs::create_dir_all(d).unwrap();
+                    }
+                    std::fs::write(&p, unhex(f[2])).unwrap();
+                }
+                "Z" => {
+                    walk(&out, "", &mut |p, _r, is_dir| {
+                        if !is_dir {
+                            if let Ok(fh) = std::fs::OpenOptions::new().write(true).open(p) {
+                                let _ = fh.set_modified(sentinel());
+                            }
+                        }
+                    });
+                }
+                "L" => {
+                    let mut l = Vec::new();
+                    listing(&base, "", &mut l);
+                    println!("##R ls={}", l.join(";"));
+                }
+                "R" => {
+                    let prog = f[1..].join(":");
+                    let r = std::panic::catch_unwind(|| run_program(&base, &out, &prog));
+                    match r {
+                        Ok(Ok(())) => println!("##R run=ok"),
+                        Ok(Err(e)) => println!("##R run={}", hex(format!("E{e}").as_bytes())),
+                        Err(_) => println!("##R run=panic"),
+                    }
+                }
+                "C" => {
+                    let prog = f[3];
+                    use std::io::Write;
+                    std::io::stdout().flush().unwrap();
+                    let st = std::process::Command::new(std::env::current_exe().unwrap())
+                        .arg("build-once")
+                        .arg(&base)
+                        .arg(&out)
+                        .arg(prog)
+                        .arg(f[1])
+                        .arg(f[2])
+                        .status()
+                        .unwrap();
+                    println!("##R crash={}", if st.success() { "completed".to_string() } else { "aborted".to_string() });
+                }
+                "P" => {
+                    let mut items = Vec::new();
+                    walk(&out, "", &mut |p, r, is_dir| {
+                        if !is_dir {
+                            let c = std::fs::read(p).unwrap_or_default();
+                            let touched = std::fs::metadata(p)
+                                .and_then(|m| m.modified())
+                                .map(|t| t != sentinel())
+                                .unwrap_or(true);
+                            items.push(format!("{}:{}:{}", hex(r.as_bytes()), hex(&c), if touched { "w" } else { "u" }));
+                        } else {
+                            items.push(format!("{}:D:d", hex(r.as_bytes())));
+                        }
+                    });
+                    println!("##R snap={}", if items.is_empty() { "-".to_string() } else { items.join(",") });
+                }
+                _ => println!("##R badop={}", f[0]),
+            }
+        }
+        println!("##END");
+        if !keep() {
+            let _ = std::fs::remove_dir_all(&base);
+            let _ = std::fs::remove_dir_all(&out);
+        }
+    }
+    if !keep() {
+        let _ = std::fs::remove_dir_all(&work);
+    }
+}
